@@ -771,6 +771,10 @@ class BaseConnector:
             if self._available_connections(key) > 0:
                 break
             attempts += 1
+            # The slot we were woken for went to someone else. What is free
+            # now may still suit a waiter for another host: pass the wake-up on
+            # rather than keep it.
+            self._release_waiter()
 
     async def _get(
         self, key: "ConnectionKey", traces: list["Trace"]
